@@ -36,7 +36,11 @@ def run_seed(args):
         todo = [own] if (only_own and own) else checks
         for c in todo:
             t0 = time.time()
-            p = subprocess.run(['python3-vt', os.path.join(V, 'verif.py'), 'check', c, '--tier', 'quick'], cwd=V, env=env, capture_output=True, text=True, timeout=1800)
+            try:
+                p = subprocess.run(['python3-vt', os.path.join(V, 'verif.py'), 'check', c, '--tier', 'quick'], cwd=V, env=env, capture_output=True, text=True, timeout=2400)
+            except subprocess.TimeoutExpired:
+                res[c] = dict(rc=124, refuted=0, undecided=0, first='', wall=2400, error='timeout')
+                continue
             lines = [l for l in p.stdout.splitlines() if l.strip().startswith(('refuted', 'undecided'))]
             res[c] = dict(rc=p.returncode, refuted=sum(1 for l in lines if l.strip().startswith('refuted')), undecided=sum(1 for l in lines if l.strip().startswith('undecided')),
                           first=(lines[0].strip()[:260] if lines else ''), wall=round(time.time() - t0, 1))
